@@ -241,6 +241,8 @@ def _inject(rng, model, utt, kind, k, meta):
         return False
     two = DM.ndim(ref) == 2
     R = ref["shape"][0]
+    if two and ref["shape"][1] != 3 and kind in ("ref_3d", "ref_mixed", "ref_width"):
+        return False  # already carries a width defect: the shape-changing injections assume width 3
     if kind in ("ref_int32", "ref_int8", "ref_int16"):
         if ref["dtype"] != "int64":
             return False
